@@ -21,6 +21,7 @@ class Spec:
     ASSUMPTIONS = []
     RULE = ''              # how cases are generated and what makes one non-trivial
     SEARCH_SECONDS = {'quick': 20, 'thorough': 300}
+    PARALLEL = 0           # number of worker processes for the implementation runs (0 = in-process)
 
     # ---- to implement -------------------------------------------------
     def cases(self, rng, tier):
@@ -100,6 +101,31 @@ class Spec:
         return cur
 
 
+_SPEC = None
+
+
+def _eval_one(c):
+    iout = _SPEC.safe_impl(c)
+    try:
+        f = _SPEC.oracle(c, iout)
+    except Exception as e:
+        f = f'oracle raised {type(e).__name__}: {e}'
+    return iout, f
+
+
+def _evaluate_all(spec, cases):
+    """(impl output, oracle verdict) per case; in worker processes when spec.PARALLEL."""
+    global _SPEC
+    _SPEC = spec
+    n = getattr(spec, 'PARALLEL', 0)
+    if not n or len(cases) < 64:
+        return [_eval_one(c) for c in cases]
+    import multiprocessing as mp
+    ctx = mp.get_context('fork')
+    with ctx.Pool(min(n, os.cpu_count() or 1)) as pool:
+        return pool.map(_eval_one, cases, chunksize=max(1, len(cases) // (n * 8)))
+
+
 def _first_error(log):
     lines = [l for l in log.split('\n') if 'error' in l.lower()]
     return lines[:6]
@@ -167,8 +193,9 @@ def run_check(spec, tier, seed):
     hist, seen, nontrivial = {}, set(), 0
     samples = []
     validated = 0
+    results = _evaluate_all(spec, allcases)
     for idx, c in enumerate(allcases):
-        iout = spec.safe_impl(c)
+        iout, f = results[idx]
         k = spec.kind(c)
         hist[k] = hist.get(k, 0) + 1
         h = C.case_hash(c)
@@ -178,10 +205,6 @@ def run_check(spec, tier, seed):
                 nontrivial += 1
         if len(samples) < 3 and (idx % max(1, len(allcases) // 3) == 0):
             samples.append({'case': c, 'impl': iout[:6]})
-        try:
-            f = spec.oracle(c, iout)
-        except Exception as e:
-            f = f'oracle raised {type(e).__name__}: {e}'
         if f is not None:
             oracle_fail.append((c, f))
         if model_out is not None:
